@@ -110,7 +110,7 @@ enum Directive {
     Verbatim(String),
     Include(String),
     Struct { file: String, name: String, opts: HashMap<String, String> },
-    Extract { file: String, selector: String, ov: FnOverlay, line: usize },
+    Extract { file: String, selector: String, ov: FnOverlay, line: usize, stub: bool },
 }
 
 fn parse_vspec(path: &str) -> (String, Vec<Directive>) {
@@ -147,6 +147,17 @@ fn parse_vspec(path: &str) -> (String, Vec<Directive>) {
         i += 1;
         match d {
             "@unit" => unit = rest.to_string(),
+            "@use-stubs" => {
+                // the callee contracts of another fragment, assumed here (they are proved in that fragment's own unit)
+                let dir = std::path::Path::new(path).parent().map(|p| p.to_string_lossy().to_string()).filter(|p| !p.is_empty()).unwrap_or_else(|| ".".to_string());
+                let (_, sub) = parse_vspec(&format!("{}/{}", dir, rest));
+                for d in sub {
+                    match d {
+                        Directive::Extract { file, selector, ov, line, .. } => out.push(Directive::Extract { file, selector, ov, line, stub: true }),
+                        other => out.push(other),
+                    }
+                }
+            }
             "@use" => {
                 let dir = std::path::Path::new(path).parent().map(|p| p.to_string_lossy().to_string()).filter(|p| !p.is_empty()).unwrap_or_else(|| ".".to_string());
                 let (_, sub) = parse_vspec(&format!("{}/{}", dir, rest));
@@ -289,7 +300,7 @@ fn parse_vspec(path: &str) -> (String, Vec<Directive>) {
                         _ => break, // next top-level directive
                     }
                 }
-                out.push(Directive::Extract { file, selector, ov, line });
+                out.push(Directive::Extract { file, selector, ov, line, stub: false });
             }
             "@end" => {}
             _ => die(&format!("{}:{}: unknown directive {}", path, i, d)),
@@ -1049,7 +1060,15 @@ impl<'s> Walker<'s> {
                 self.walk_expr(&r.expr);
                 self.walk_expr(&r.len)
             }
-            Path(_) | Lit(_) | Break(_) | Continue(_) => {}
+            Path(p) => {
+                // R7: the external constant `f64::consts::PI` is read through an opaque function
+                let segs: Vec<String> = p.path.segments.iter().map(|s| s.ident.to_string()).collect();
+                if segs.len() >= 2 && segs[segs.len() - 2] == "consts" && segs[segs.len() - 1] == "PI" {
+                    let r = self.src.range(e.span());
+                    self.replace(r, "f64_const_pi()", "R7");
+                }
+            }
+            Lit(_) | Break(_) | Continue(_) => {}
             other => die(&format!(
                 "unsupported expression form at {}:{}: {}",
                 self.src.path,
@@ -1445,7 +1464,7 @@ fn generics_text(src: &Src, g: &syn::Generics, rules: &mut Vec<(&'static str, us
     }
 }
 
-fn extract_fn(src: &Src, file: &syn::File, selector: &str, ov: &FnOverlay, map: &mut Vec<serde_json::Value>, out_line0: usize, canary: &Option<String>) -> String {
+fn extract_fn(src: &Src, file: &syn::File, selector: &str, ov: &FnOverlay, map: &mut Vec<serde_json::Value>, out_line0: usize, canary: &Option<String>, stub: bool) -> String {
     let sel = select(file, src, selector);
     let mut w = Walker {
         src,
@@ -1523,6 +1542,41 @@ fn extract_fn(src: &Src, file: &syn::File, selector: &str, ov: &FnOverlay, map: 
         head.push_str(ov.spec.trim_end());
         head.push('\n');
     }
+    if stub {
+        // contract only: signature + spec from the same overlay text that is proved in the callee's own unit
+        let mut text = String::new();
+        let mut sr: Vec<(&'static str, usize)> = Vec::new();
+        if let Some(im) = sel.imp {
+            let g = generics_text(src, &im.generics, &mut sr);
+            let mut tw = Walker { src, ov, edits: Vec::new(), depth: 0, loops: 0, closures: 0, ifs: 0, folds: 0, env: vec![HashMap::new()], used: HashSet::new(), cut_defs: vec![], cut_info: vec![], r2: true };
+            tw.walk_type(&im.self_ty);
+            let (ts, te) = src.range(im.self_ty.span());
+            let (selfty, _) = apply(src, ts, te, &mut tw.edits);
+            match &im.trait_ {
+                Some((_, path, _)) => text.push_str(&format!("impl{} {} for {} {{\n", g, src.slice(path.span()), selfty)),
+                None => text.push_str(&format!("impl{} {} {{\n", g, selfty)),
+            }
+            for ii in im.items.iter() {
+                if let syn::ImplItem::Type(t) = ii {
+                    text.push_str(&format!("    {}\n", src.slice(t.span())));
+                }
+            }
+        }
+        text.push_str("#[verifier::external_body] // STUB: contract proved in the callee's own unit\n");
+        text.push_str(&head);
+        text.push_str("{ unimplemented!() }\n");
+        if sel.imp.is_some() {
+            text.push_str("}\n");
+        }
+        let (ws, we) = src.range(sel.whole);
+        map.push(serde_json::json!({
+            "selector": selector, "name": sig.ident.to_string(), "repo_file": src.path,
+            "repo_lines": [src.line_of(ws), src.line_of(we)],
+            "unit_lines": [out_line0, out_line0 + text.matches('\n').count()],
+            "rule_counts": {}, "kind": "stub",
+        }));
+        return text;
+    }
     // ---- body ------------------------------------------------------------------------------------
     w.walk_block(sel.block, "fn");
     // vacuity canary: `assert(false)` at the end of the body must be refuted by the verifier
@@ -1594,12 +1648,14 @@ fn extract_fn(src: &Src, file: &syn::File, selector: &str, ov: &FnOverlay, map: 
             Some((_, path, _)) => format!("impl{} {} for {} {{\n", g, src.slice(path.span()), selfty),
             None => format!("impl{} {} {{\n", g, selfty),
         };
-        text.push_str(&hdr);
-        pre_lines += 1;
-        for ii in im.items.iter() {
-            if let syn::ImplItem::Type(t) = ii {
-                text.push_str(&format!("    {}\n", src.slice(t.span())));
-                pre_lines += 1;
+        if ov.opts.get("impl_open").map(|v| v != "no").unwrap_or(true) {
+            text.push_str(&hdr);
+            pre_lines += 1;
+            for ii in im.items.iter() {
+                if let syn::ImplItem::Type(t) = ii {
+                    text.push_str(&format!("    {}\n", src.slice(t.span())));
+                    pre_lines += 1;
+                }
             }
         }
     }
@@ -1613,7 +1669,7 @@ fn extract_fn(src: &Src, file: &syn::File, selector: &str, ov: &FnOverlay, map: 
             text.push_str(d);
         }
     }
-    if sel.imp.is_some() {
+    if sel.imp.is_some() && ov.opts.get("impl_close").map(|v| v != "no").unwrap_or(true) {
         text.push_str("}\n");
     }
     for d in w.cut_defs.iter() {
@@ -1798,12 +1854,12 @@ fn main() {
                 let t = extract_struct(s, f, name, opts, &mut map);
                 text.push_str(&t);
             }
-            Directive::Extract { file, selector, ov, line: _ } => {
+            Directive::Extract { file, selector, ov, line: _, stub } => {
                 file_of(&mut files, file);
                 let (s, f) = files.get(file).unwrap();
                 text.push_str(&format!("// ---- extracted from {} : {} ----\n", file, selector));
                 let line0 = text.matches('\n').count() + 1;
-                let t = extract_fn(s, f, selector, ov, &mut map, line0, &canary);
+                let t = extract_fn(s, f, selector, ov, &mut map, line0, &canary, *stub);
                 text.push_str(&t);
             }
         }
